@@ -8,6 +8,7 @@
      Finish(op, ok|err, res, faulty)  the callable's Deferred fired (res: contents a read returned,
                                    faulty: faults were injected while it ran)
      Return(op, ok|err)            the caller's Deferred fired
+     Cancel(ops)                   the requester of these operations went away (Deferred.cancel())
      Quiesce                       nothing in flight, no timer pending
      Final(readable, c)            contents read back through an independent node object
    The verdict of an event is the first clause of Serializer.tla that fails. *)
@@ -15,8 +16,8 @@ EXTENDS Serializer, Json, IOUtils, TLCExt
 
 Traces == JsonDeserialize(IOEnv.TRACE_FILE)
 
-VARIABLES tid, l, A, bad
-tvars == <<tid, l, A, bad>>
+VARIABLES tid, l, A, can, bad
+tvars == <<tid, l, A, can, bad>>
 
 Events == Traces[tid].events
 Ev == Events[l]
@@ -43,8 +44,12 @@ Verdict(kind, e) ==
     [] e.ev = "Finish"  -> LET res == NormC(kind, e.res)
                                c == AFinishClause(A, e.op, e.st, e.faulty, res) IN
                            IF c # "" THEN V(c, A) ELSE V("", AFinish(A, e.op, e.st, e.faulty, res))
-    [] e.ev = "Return"  -> LET c == AReturnClause(A, e.op, e.st) IN
-                           IF c # "" THEN V(c, A) ELSE V("", AReturn(A, e.op))
+    \* the requester of a cancelled request has its answer (CancelledError) at once; the operation itself is owed
+    \* nothing less: it still starts in turn, runs alone and to its end
+    [] e.ev = "Return"  -> IF e.op \in can THEN V("", AReturn(A, e.op))
+                           ELSE LET c == AReturnClause(A, e.op, e.st) IN
+                                IF c # "" THEN V(c, A) ELSE V("", AReturn(A, e.op))
+    [] e.ev = "Cancel"  -> V("", A)
     [] e.ev = "Quiesce" -> V(AQuiesceClause(A), A)
     [] e.ev = "Final"   -> IF ~e.readable THEN V("C13_NoLostEdit_unreadable", A)
                            ELSE V(AFinalClause(A, NormC(kind, e.c)), A)
@@ -54,6 +59,7 @@ TraceInit ==
   /\ tid \in 1..Len(Traces)
   /\ l = 1
   /\ A = AInit(NormC(Traces[tid].consts.kind, Traces[tid].consts.init))
+  /\ can = {}
   /\ bad = "none"
 
 TraceNext ==
@@ -62,8 +68,9 @@ TraceNext ==
   /\ LET v == Verdict(Traces[tid].consts.kind, Ev) IN
        IF v.c = ""
          THEN /\ A' = v.s /\ l' = l + 1 /\ bad' = "none"
+              /\ can' = IF Ev.ev = "Cancel" THEN can \cup ToSet(Ev.ops) ELSE can
               /\ (l = Len(Events) => PrintT(<<"VF_ACCEPT", tid, l>>))
-         ELSE /\ bad' = v.c /\ UNCHANGED <<A, l>>
+         ELSE /\ bad' = v.c /\ UNCHANGED <<A, l, can>>
               /\ PrintT(<<"VF_REJECT", tid, l, v.c>>)
   /\ UNCHANGED tid
 
